@@ -12,7 +12,8 @@
    For the model's CSC product sp_mul, eA = gam_m || |A| ||_2 (m = longest stored row): [sparse_product_accuracy].
    Comparison with the oracle's allowance 64 (k+1) eps (||A|| X + ||b||)/||b||', eps = 2u: the theorem's constant per
    iteration is 4 (NA + m || |A| ||) u X + 4 u ||b|| (CG, BiCG; twice that for BiCGSTAB) against 128 u (||A|| X + ||b||):
-   the allowance is implied whenever m || |A| ||_2 <= 31 ||A||_2 (CG/BiCG) resp. <= 15 ||A||_2 (BiCGSTAB).
+   the allowance is implied whenever (about) m || |A| ||_2 <= 30 ||A||_2 (CG/BiCG) resp. <= 14 ||A||_2 (BiCGSTAB):
+   [ok_means_solved_oracle_allowance] below states this exactly.
    Unproved remainder: QMR (its second recurrence s ~ A d needs an invariant of its own); the standard model itself
    (no overflow/underflow; discharged for binary64 operations in Proofs/RoundDotFloat.v away from underflow).
    ====================================================================================================== *)
@@ -39,7 +40,7 @@ Theorem residual_drift : forall (u : R), (0 <= u < 1)%R ->
     (x : list R) (g : ghost (SARm fadd fsub fmul fdiv fsqrt)),
   sv <> QMR ->
   run (A := SARm fadd fsub fmul fdiv fsqrt) mulA mulAT n cols sv b x0 max tol = Ok (IOk k, x, g) ->
-  (k <= max)%nat /\ length x = n /\ length (g_t g) = n /\
+  (k <= max)%nat /\ length x = n /\ length (g_t g) = n /\ (0 <= t_X (g_X g))%R /\
   ((1 - rho u) ^ (updates sv k + 1) * N2 n (fun i => vf b i - Ax n a (vf x) i - vf (g_t g) i)
    <= (4 * INR (updates sv k) + 1) * ((rho u * NA + eA) * (kap u n * t_X (g_X g)) + rho u * N2 n (vf b)))%R.
 Proof. intros u Hu fadd fsub fmul fdiv fsqrt Ha Hs Hm H0 Hq n Hn a NA eA HNA HeA HA mulA MV mulAT sv b x0 cols max tol k x g Hsv H. exact (run_drift_lemma u Hu fadd fsub fmul fdiv fsqrt Ha Hs Hm H0 Hq n Hn a NA eA HNA HeA HA mulA MV mulAT sv b x0 cols max tol k x g Hsv H). Qed.
@@ -60,7 +61,7 @@ Check residual_drift : forall (u : R), (0 <= u < 1)%R ->
     (x : list R) (g : ghost (SARm fadd fsub fmul fdiv fsqrt)),
   sv <> QMR ->
   run (A := SARm fadd fsub fmul fdiv fsqrt) mulA mulAT n cols sv b x0 max tol = Ok (IOk k, x, g) ->
-  (k <= max)%nat /\ length x = n /\ length (g_t g) = n /\
+  (k <= max)%nat /\ length x = n /\ length (g_t g) = n /\ (0 <= t_X (g_X g))%R /\
   ((1 - rho u) ^ (updates sv k + 1) * N2 n (fun i => vf b i - Ax n a (vf x) i - vf (g_t g) i)
    <= (4 * INR (updates sv k) + 1) * ((rho u * NA + eA) * (kap u n * t_X (g_X g)) + rho u * N2 n (vf b)))%R.
 Print Assumptions residual_drift.
@@ -143,6 +144,64 @@ Example ok_means_solved_rounded_nonvacuous :
   (exists g, run (A := SARm xadd xsub xmul xdiv xsqrt) (sp_mul sx1) (sp_tmul sx1) 1 1 CG [2%R] [0%R] 2 (/ 2)%R
              = Ok (IOk 1, [1%R], g)).
 Proof. split; [exact xdiv_ok|exact cg_run_flx]. Qed.
+
+(* the allowance of the oracle (driver/c08.py: tol ||b||' + 64 (k+1) eps (||A|| X + ||b||), eps = 2u) as a corollary:
+   it is implied when the product is accurate to eA <= c u NA and (4j+1)(1+c) amp <= 128 (k+1), where
+   amp = kap (1+rho)/(1-rho)^(j+1) = 1 + O((j+n) u): for CG/BiCG any c <= 30 (amp <= 32/31), for BiCGSTAB any c <= 14 (amp <= 16/15) *)
+Theorem ok_means_solved_oracle_allowance : forall (u : R), (0 <= u < 1)%R ->
+  forall (fadd fsub fmul fdiv : R -> R -> R) (fsqrt : R -> R),
+  (forall x y : R, exists d : R, (Rabs d <= u)%R /\ fadd x y = ((x + y) * (1 + d))%R) ->
+  (forall x y : R, exists d : R, (Rabs d <= u)%R /\ fsub x y = ((x - y) * (1 + d))%R) ->
+  (forall x y : R, exists d : R, (Rabs d <= u)%R /\ fmul x y = (x * y * (1 + d))%R) ->
+  (forall x y : R, y <> 0%R -> exists d : R, (Rabs d <= u)%R /\ fdiv x y = (x / y * (1 + d))%R) ->
+  (forall a b : R, fadd 0%R (fmul a b) = fmul a b) ->
+  (forall x : R, (0 <= x)%R -> exists d : R, (Rabs d <= u)%R /\ fsqrt x = (R_sqrt.sqrt x * (1 + d))%R) ->
+  forall n : nat, (2 * INR (n + 1) * u < 1)%R ->
+  forall (a : nat -> nat -> R) (NA eA : R), (0 <= NA)%R -> (0 <= eA)%R ->
+  (forall f : nat -> R, (N2 n (Ax n a f) <= NA * N2 n f)%R) ->
+  forall mulA : list R -> res (list R),
+  (forall v : list R, length v = n -> exists w : list R, mulA v = Ok w /\ length w = n /\
+     (N2 n (fun i => vf w i - Ax n a (vf v) i) <= eA * N2 n (vf v))%R) ->
+  forall (mulAT : list R -> res (list R)) (sv : solver) (b x0 : list R) (cols max : nat) (tol : R) (k : nat)
+    (x : list R) (g : ghost (SARm fadd fsub fmul fdiv fsqrt)) (c : R),
+  sv <> QMR -> (0 <= c)%R -> (eA <= c * (u * NA))%R ->
+  ((4 * INR (updates sv k) + 1) * (1 + c) * amp u n (updates sv k) <= 128 * INR (k + 1))%R ->
+  run (A := SARm fadd fsub fmul fdiv fsqrt) mulA mulAT n cols sv b x0 max tol = Ok (IOk k, x, g) ->
+  (N2 n (fun i => vf b i - Ax n a (vf x) i)
+   <= tol * (kap u n * (1 + rho u) * (1 + gN u n)) * nzR (N2 n (vf b))
+      + 64 * INR (k + 1) * (2 * u) * (NA * t_X (g_X g) + N2 n (vf b)))%R.
+Proof. intros u Hu fadd fsub fmul fdiv fsqrt Ha Hs Hm Hd H0 Hq n Hn a NA eA HNA HeA HA mulA MV mulAT sv b x0 cols max tol k x g c Hsv Hc He Hamp H. exact (run_ok_means_solved_allowance_lemma u Hu fadd fsub fmul fdiv fsqrt Ha Hs Hm Hd H0 Hq n Hn a NA eA HNA HeA HA mulA MV mulAT sv b x0 cols max tol k x g c Hsv Hc He Hamp H). Qed.
+Check ok_means_solved_oracle_allowance : forall (u : R), (0 <= u < 1)%R ->
+  forall (fadd fsub fmul fdiv : R -> R -> R) (fsqrt : R -> R),
+  (forall x y : R, exists d : R, (Rabs d <= u)%R /\ fadd x y = ((x + y) * (1 + d))%R) ->
+  (forall x y : R, exists d : R, (Rabs d <= u)%R /\ fsub x y = ((x - y) * (1 + d))%R) ->
+  (forall x y : R, exists d : R, (Rabs d <= u)%R /\ fmul x y = (x * y * (1 + d))%R) ->
+  (forall x y : R, y <> 0%R -> exists d : R, (Rabs d <= u)%R /\ fdiv x y = (x / y * (1 + d))%R) ->
+  (forall a b : R, fadd 0%R (fmul a b) = fmul a b) ->
+  (forall x : R, (0 <= x)%R -> exists d : R, (Rabs d <= u)%R /\ fsqrt x = (R_sqrt.sqrt x * (1 + d))%R) ->
+  forall n : nat, (2 * INR (n + 1) * u < 1)%R ->
+  forall (a : nat -> nat -> R) (NA eA : R), (0 <= NA)%R -> (0 <= eA)%R ->
+  (forall f : nat -> R, (N2 n (Ax n a f) <= NA * N2 n f)%R) ->
+  forall mulA : list R -> res (list R),
+  (forall v : list R, length v = n -> exists w : list R, mulA v = Ok w /\ length w = n /\
+     (N2 n (fun i => vf w i - Ax n a (vf v) i) <= eA * N2 n (vf v))%R) ->
+  forall (mulAT : list R -> res (list R)) (sv : solver) (b x0 : list R) (cols max : nat) (tol : R) (k : nat)
+    (x : list R) (g : ghost (SARm fadd fsub fmul fdiv fsqrt)) (c : R),
+  sv <> QMR -> (0 <= c)%R -> (eA <= c * (u * NA))%R ->
+  ((4 * INR (updates sv k) + 1) * (1 + c) * amp u n (updates sv k) <= 128 * INR (k + 1))%R ->
+  run (A := SARm fadd fsub fmul fdiv fsqrt) mulA mulAT n cols sv b x0 max tol = Ok (IOk k, x, g) ->
+  (N2 n (fun i => vf b i - Ax n a (vf x) i)
+   <= tol * (kap u n * (1 + rho u) * (1 + gN u n)) * nzR (N2 n (vf b))
+      + 64 * INR (k + 1) * (2 * u) * (NA * t_X (g_X g) + N2 n (vf b)))%R.
+Print Assumptions ok_means_solved_oracle_allowance.
+(* non-vacuity: on the instance of residual_drift_nonvacuous (n = 1, NA = 2, eA = gam_1 * 2, k = 1) the two extra
+   hypotheses hold with c = 2 *)
+Example ok_means_solved_oracle_allowance_nonvacuous :
+  (0 <= 2)%R /\ (gam ux 1 * 2 <= 2 * (ux * 2))%R /\
+  ((4 * INR (updates CG 1) + 1) * (1 + 2) * amp ux 1 (updates CG 1) <= 128 * INR (1 + 1))%R /\
+  (exists g, run (A := SARm xadd xsub xmul xdiv xsqrt) (sp_mul sx1) (sp_tmul sx1) 1 1 CG [2%R] [0%R] 2 (/ 2)%R
+             = Ok (IOk 1, [1%R], g)).
+Proof. split; [lra|]. split; [exact ex_eA_c|]. split; [exact ex_amp|exact cg_run_flx]. Qed.
 
 (* the model's compressed-column product meets the accuracy hypothesis with eA = gam_m || |A| ||_2 *)
 Theorem sparse_product_accuracy : forall (u : R), (0 <= u < 1)%R ->
